@@ -212,6 +212,8 @@ type Global struct {
 	tempFiles  []*os.File
 	gccount    int32
 	random     *rand.Rand // source of math.random once math.randomseed has been called
+	// mark of require for a module that is being loaded (see loopSentinel)
+	loopdetection *LUserData
 }
 
 type LState struct {
